@@ -14,6 +14,8 @@ KANI = {
     'c17_gap_zero_iff_equal': {'replay': ('gap', ['isize', 'isize'])},
     'c17_gap_le_one_same_sign': {'replay': ('gap', ['isize', 'isize'])},
     'c17_gap_cover': {},
+    'c18_threshold_max_is_lexicographic': {},
+    'c11_maxub_is_lexicographic': {},
 }
 
 # unit -> native witness search run when an obligation of that unit fails on changed code: (replay case, args)
@@ -125,7 +127,7 @@ PROPS = {
     'C18': {
         'units': ['cache_api', 'dominance_checker'],
         'dep_units': [],
-        'kani': [],
+        'kani': ['c18_threshold_max_is_lexicographic'],
         'technique': 'Verus: SimpleCache / EmptyCache / SimpleDominanceChecker real methods against ghost map models; history lemmas for arbitrary operation sequences',
         'level_text': 'Deductive proof (Verus) of the SEQUENTIAL clause for all operation histories: SimpleCache against Seq<Map<State, Threshold>>: get_threshold returns the stored entry, update_threshold stores the lexicographic maximum in (value, explored) order and touches no other key/layer, clear_layer empties exactly one layer, clear all (lemma_history: the answer is the maximum of the records since the layer was last cleared); dominance store answers as the Pareto front of everything recorded (lemma_front_history).',
         'level_note': 'The CONCURRENCY clause (linearisability under shard locks) is NOT decided: DashMap is a trusted stand-in whose entry API is assumed atomic per key; Kani has no threads and ICEs on DashMap, Verus cannot see DashMap unsafe code. Trusted: derived Ord of Threshold is lexicographic (OrdSpecImpl), R14 (&self -> &mut self for interior mutability).',
@@ -145,7 +147,7 @@ PROPS = {
     'C11': {
         'units': ['nodup_fringe', 'simple_fringe', 'ranking'],
         'dep_units': [],
-        'kani': [],
+        'kani': ['c11_maxub_is_lexicographic'],
         'technique': 'Verus: representation invariant + abstract view of NoDupFringe (real text of all 17 functions) proved against the Fringe trait contract; MaxUB::compare proved lexicographic',
         'level_text': 'Deductive proof (Verus, all operation sequences by induction over the representation invariant wf): heap ids/pos inverse, recycle bin = dead ids, states maps exactly the live (state, depth) keys, max-heap order. push/pop/clear/len/is_empty of the real NoDupFringe meet the Fringe contract of inc_dp.vinc: pop returns a maximum of the ranking (ub first), len == number of poppable items, nothing lost or invented, coalescing only for same state AND same depth with larger value + own path + max ub. bubble_up/bubble_down terminate (decreases). MaxUB::compare is the lexicographic (ub, value, state ranking) order. SimpleFringe: delegation proved, BinaryHeap assumed.',
         'level_note': 'Trusted: user StateRanking is a total preorder (axioms), Hash/Eq of the user state consistent (obeys_key_model), Vec length <= isize::MAX/2 (allocation limit), derived Clone of SubProblem, binary_heap_plus::BinaryHeap max-heap contract (stand-in), Ordering == spec.',
